@@ -60,7 +60,7 @@ package hls
 // ---- C10: the playlist window --------------------------------------------------------------------------------------
 // invariant: at most three segments, none nil, each with its file, consecutive sequence numbers
 // (the window never holds more than four entries, so the quantifiers range over constant bounds: ground facts)
-//@ spec func segsOK(s []*segment) bool = len(s) <= 4 && forall(i, 0, 4, i < len(s) ==> s[i] != nil && s[i].file != nil && 0 <= ghostInt(s[i].file, "deletes") && ghostInt(s[i].file, "deletes") < 1<<40) && forall(i, 1, 4, i < len(s) ==> s[i].sequenceNo == s[i-1].sequenceNo + 1)
+//@ spec func segsOK(s []*segment) bool = len(s) <= 4 && forall(i, 0, 4, i < len(s) ==> s[i] != nil && s[i].file != nil) && forall(i, 1, 4, i < len(s) ==> s[i].sequenceNo == s[i-1].sequenceNo + 1)
 //@ spec func plOK(pl *Playlist) bool = pl != nil && len(pl.segments) <= 3 && segsOK(pl.segments)
 
 // clearSegments keeps exactly the last `remain` segments in order and asks every dropped segment's file to delete itself
@@ -70,7 +70,7 @@ package hls
 //@   local i int
 //@   loop 0: modifies pl.segments[:cap(pl.segments)], ghostAll("deletes")
 //@   loop 0: invariant 0 <= i && i <= len(pl.segments) - remain && sameHdr(pl.segments, old(pl.segments)) && pl == old(pl)
-//@   loop 0: invariant forall(j, 0, i, ghostInt(old(pl.segments[j]).file, "deletes") >= old(ghostInt(pl.segments[j].file, "deletes")) + 1) && forall(j, 0, len(pl.segments), ghostInt(old(pl.segments[j]).file, "deletes") >= old(ghostInt(pl.segments[j].file, "deletes")) && ghostInt(old(pl.segments[j]).file, "deletes") <= old(ghostInt(pl.segments[j].file, "deletes")) + i)
+//@   loop 0: invariant forall(j, 0, i, ghostInt(old(pl.segments[j]).file, "deletes") - old(ghostInt(pl.segments[j].file, "deletes")) >= 1) && forall(j, 0, len(pl.segments), ghostInt(old(pl.segments[j]).file, "deletes") - old(ghostInt(pl.segments[j].file, "deletes")) >= 0 && ghostInt(old(pl.segments[j]).file, "deletes") - old(ghostInt(pl.segments[j].file, "deletes")) <= i)
 //@   loop 0: invariant forall(j, i, len(pl.segments), pl.segments[j] == old(pl.segments[j]) && pl.segments[j] != nil && pl.segments[j].file != nil && pl.segments[j].sequenceNo == old(pl.segments[j].sequenceNo))
 //@   loop 0: decreases len(pl.segments) - remain - i
 //@   split len(pl.segments) > remain
@@ -79,17 +79,19 @@ package hls
 // bounded storage: the release of every evicted segment's storage is attempted before the call returns (a delayed
 // retry is scheduled only when that attempt fails) - nothing is left to a later job that could hit a file re-created
 // under the same name by a new session of the same stream
-//@   ensures forall(j, 0, old(len(pl.segments)) - remain, ghostInt(old(pl.segments[j]).file, "deletes") >= old(ghostInt(pl.segments[j].file, "deletes")) + 1)
+// (counted as a difference: a counter of attempts has no upper bound)
+//@   ensures forall(j, 0, old(len(pl.segments)) - remain, ghostInt(old(pl.segments[j]).file, "deletes") - old(ghostInt(pl.segments[j].file, "deletes")) >= 1)
 
 // addSegment appends the new segment and keeps the last three (bounded storage: older ones are deleted)
 //@ func (pl *Playlist) addSegment(seg *segment) ()
-//@   requires plOK(pl) && !held(&pl.l) && seg != nil && seg.file != nil && 0 <= ghostInt(seg.file, "deletes") && ghostInt(seg.file, "deletes") < 1<<40 && (len(pl.segments) > 0 ==> seg.sequenceNo == pl.segments[len(pl.segments)-1].sequenceNo + 1)
-//@   modifies held(&pl.l), pl.segments, pl.segments[:cap(pl.segments)], ghostAll("deletes"), all()
+//@   requires plOK(pl) && !held(&pl.l) && seg != nil && seg.file != nil && (len(pl.segments) > 0 ==> seg.sequenceNo == pl.segments[len(pl.segments)-1].sequenceNo + 1)
+//@   modifies held(&pl.l), pl.segments, pl.segments[:cap(pl.segments)], ghostAll("deletes")
 //@   split len(pl.segments) == 0, len(pl.segments) == 1, len(pl.segments) == 2, len(pl.segments) < cap(pl.segments)
 //@   ensures !held(&pl.l)
 //@   ensures len(pl.segments) == iteInt(old(len(pl.segments)) < 3, old(len(pl.segments)) + 1, 3) && pl.segments[len(pl.segments)-1] == seg
 //@   ensures forall(j, 0, 3, j < len(pl.segments) ==> pl.segments[j] != nil && pl.segments[j].file != nil)
 //@   ensures forall(j, 1, 3, j < len(pl.segments) ==> pl.segments[j].sequenceNo == pl.segments[j-1].sequenceNo + 1)
+//@   ensures pl.segments[len(pl.segments)-1].sequenceNo == seg.sequenceNo
 
 // a playlist is rendered entirely under the read lock (so a rollover cannot interleave with it), only when three
 // segments exist, with the media sequence of the first listed segment
@@ -121,3 +123,102 @@ package hls
 //@   loop 0: invariant -1 <= rangeindex && rangeindex <= len(pl.segments) && held(&pl.l)
 //@   ensures !held(&pl.l)
 //@   ensures forall(j, 0, len(pl.segments), pl.segments[j].sequenceNo != seq) ==> err != nil
+
+// ---- C10: the segment generator numbers segments consecutively -----------------------------------------------------
+//@ import "strconv"
+//@ import "path/filepath"
+//@ import "github.com/cnotch/ipchub/av/format/mpegts"
+//@ import "github.com/cnotch/ipchub/utils/murmur"
+//@ import "github.com/cnotch/xlog"
+// assumed: the segment files (memory / disk) may fail in any way; a new segment has a file; string helpers are pure
+//@ func newSegment(memory bool) (seg *segment)
+//@   trusted
+//@   modifies
+//@   fresh seg
+//@   ensures seg != nil && seg.file != nil && seg.duration == 0 && !seg.isSequenceHeader && ghostInt(seg.file, "deletes") == 0 && ghostInt(seg.file, "frames") == 0
+//@ extern func (f segmentFile) open(path string) (err error)
+//@   modifies misc(f)
+//@ extern func (f segmentFile) close() (err error)
+//@   modifies misc(f)
+//@ extern func (f segmentFile) writeFrame(frame *mpegts.Frame) (err error)
+//@   modifies misc(f), ghostInt(f, "frames")
+//@   ensures ghostInt(f, "frames") == old(ghostInt(f, "frames")) + 1
+//@ extern func strconv.Itoa(i int) (s string)
+//@   modifies
+//@ extern func fmt.Sprintf(format string, a ...interface{}) (s string)
+//@   modifies
+//@ extern func filepath.Join(elem ...string) (s string)
+//@   modifies
+//@ extern func murmur.OfString(s string) (h uint32)
+//@   modifies
+
+// n is the number the playlist expects next / n is the number it ended with (an empty playlist accepts any number)
+//@ spec func lastIs(pl *Playlist, n int) bool = len(pl.segments) == 0 || pl.segments[len(pl.segments)-1].sequenceNo == n
+//@ spec func nextIs(pl *Playlist, n int) bool = len(pl.segments) == 0 || pl.segments[len(pl.segments)-1].sequenceNo + 1 == n
+// generator invariant: while a segment is open it carries the generator's current number, which is the one the playlist
+// expects next (so playlists always list consecutive numbers); a generator without an open segment is dead: it ignores
+// every frame (its number may be ahead of the playlist after a failed open)
+//@ spec func sgOK(sg *SegmentGenerator) bool = sg != nil && plOK(sg.playlist) && !held(&sg.playlist.l) && sg.aacJitter != nil && (sg.current != nil ==> sg.current.file != nil && sg.current.sequenceNo == sg.sequenceNo && nextIs(sg.playlist, sg.sequenceNo))
+
+// opening is only allowed while the generator's number is the one the playlist ended with
+//@ func (sg *SegmentGenerator) segmentOpen(segmentStartDts int64) (err error)
+//@   requires sg != nil && plOK(sg.playlist) && !held(&sg.playlist.l) && sg.aacJitter != nil
+//@   requires sg.current == nil ==> lastIs(sg.playlist, sg.sequenceNo)
+//@   requires sg.current != nil ==> sgOK(sg)
+//@   modifies sg.sequenceNo, sg.current, ghostAll("misc")
+//@   ensures old(sg.current) != nil ==> err == nil && sg.current == old(sg.current) && sg.sequenceNo == old(sg.sequenceNo)
+//@   ensures old(sg.current) == nil && err != nil ==> sg.current == nil
+//@   ensures err == nil ==> sg.current != nil && sgOK(sg)
+//@   ensures old(sg.current) == nil && err == nil ==> sg.sequenceNo == old(sg.sequenceNo) + 1 && ghostInt(sg.current.file, "frames") == 0
+
+// closing hands the segment to the playlist under its number, or drops a too short one and gives the number back
+//@ func (sg *SegmentGenerator) segmentClose() (err error)
+//@   requires sgOK(sg)
+//@   modifies sg.sequenceNo, sg.current, ghostAll("misc"), ghostAll("deletes"), held(&sg.playlist.l), sg.playlist.segments, sg.playlist.segments[:cap(sg.playlist.segments)]
+//@   ensures err == nil && sg.current == nil && sg.playlist == old(sg.playlist) && plOK(sg.playlist) && !held(&sg.playlist.l) && sg.aacJitter == old(sg.aacJitter)
+//@   ensures old(sg.current) != nil ==> lastIs(sg.playlist, sg.sequenceNo)
+
+// a frame goes to the segment that is open, exactly once
+//@ func (sg *SegmentGenerator) flushFrame(frame *mpegts.Frame) (err error)
+//@   requires sgOK(sg) && sg.current != nil && frame != nil
+//@   modifies sg.current.duration, ghostAll("misc"), ghostAll("frames")
+//@   ensures sgOK(sg) && sg.current == old(sg.current)
+//@   ensures ghostInt(sg.current.file, "frames") == old(ghostInt(sg.current.file, "frames")) + 1
+//@ func (sg *SegmentGenerator) flushAudioCache() (err error)
+//@   requires sgOK(sg) && sg.current != nil
+//@   modifies sg.current.duration, sg.afCache, sg.afCache.Payload, out(&sg.afCacheBuff), ghostAll("misc"), ghostAll("frames")
+//@   ensures sgOK(sg) && sg.current == old(sg.current) && sg.afCache == nil
+//@   ensures old(sg.afCache) != nil ==> ghostInt(sg.current.file, "frames") == old(ghostInt(sg.current.file, "frames")) + 1
+//@   ensures old(sg.afCache) == nil ==> ghostInt(sg.current.file, "frames") == old(ghostInt(sg.current.file, "frames"))
+
+// rollover: the open segment is closed under its number and the next one is opened under the following number; if the
+// new segment cannot be opened the generator stays without a segment (and ignores all further frames)
+//@ func (sg *SegmentGenerator) reapSegment(segmentStartDts int64) (err error)
+//@   requires sgOK(sg) && sg.current != nil
+//@   modifies sg.sequenceNo, sg.current, sg.current.duration, sg.afCache, sg.afCache.Payload, out(&sg.afCacheBuff), ghostAll("misc"), ghostAll("frames"), ghostAll("deletes"), held(&sg.playlist.l), sg.playlist.segments, sg.playlist.segments[:cap(sg.playlist.segments)], anyFld((*segment)(nil).duration)
+//@   ensures sgOK(sg) && sg.playlist == old(sg.playlist)
+//@   ensures err == nil ==> sg.current != nil
+
+// every frame: ignored by a generator without an open segment; otherwise written to the segment that is open after the
+// (possible) rollover; the generator invariant (consecutive numbering) is kept whatever the storage does
+//@ func (sg *SegmentGenerator) WriteMpegtsFrame(frame *mpegts.Frame) (err error)
+//@   requires sgOK(sg) && frame != nil && (frame.Pid == 0x101 ==> sg.audioRate != 0)
+//@   modifies sg.sequenceNo, sg.current, sg.afCache, *sg.aacJitter, out(&sg.afCacheBuff), ghostAll("misc"), ghostAll("frames"), ghostAll("deletes"), held(&sg.playlist.l), sg.playlist.segments, sg.playlist.segments[:cap(sg.playlist.segments)], anyFld((*segment)(nil).duration), anyFld((*mpegts.Frame)(nil).Payload), anyFld((*mpegts.Frame)(nil).Dts), anyFld((*mpegts.Frame)(nil).Pts)
+//@   ensures sg.playlist == old(sg.playlist) && sg.aacJitter == old(sg.aacJitter) && !held(&sg.playlist.l)
+//@   ensures plOK(sg.playlist)
+//@   ensures sg.current != nil ==> sg.current.file != nil && sg.current.sequenceNo == sg.sequenceNo
+//@   ensures sg.current != nil ==> nextIs(sg.playlist, sg.sequenceNo)
+//@   ensures old(sg.current) == nil ==> sg.current == nil && sg.sequenceNo == old(sg.sequenceNo)
+
+// Close drops the open segment; the generator ignores every later frame
+//@ func (sg *SegmentGenerator) Close() (err error)
+//@   requires sgOK(sg)
+//@   modifies sg.current, ghostAll("misc"), ghostAll("deletes")
+//@   ensures sg.current == nil && sgOK(sg)
+
+// a new generator starts at number 1 on an empty playlist
+//@ func NewSegmentGenerator(playlist *Playlist, path string, hlsFragment int, segmentPath string, audioRate int, logger *xlog.Logger) (sg *SegmentGenerator, err error)
+//@   requires plOK(playlist) && !held(&playlist.l) && len(playlist.segments) == 0
+//@   modifies ghostAll("misc"), anyFld((*segment)(nil).isSequenceHeader)
+//@   freshornil sg
+//@   ensures err == nil ==> sg != nil && sgOK(sg) && sg.current != nil && sg.sequenceNo == 1 && sg.playlist == playlist && sg.audioRate == audioRate
